@@ -5,6 +5,7 @@ set -e
 cd "$(dirname "$0")"
 export CARGO_NET_OFFLINE=true
 (cd coq && coq_makefile -f _CoqProject -o Makefile >/dev/null && timeout 3000 make -j16 >/dev/null 2>&1 || (echo "coq build failed"; make 2>&1 | tail -30; exit 1))
-cp /repo/Cargo.lock harness/Cargo.lock
+# /repo/Cargo.lock is git-ignored there: use it when present, else the copy recorded with the harness
+if [ -f /repo/Cargo.lock ]; then cp /repo/Cargo.lock harness/Cargo.lock; else cp harness/Cargo.lock.base harness/Cargo.lock; fi
 (cd harness && timeout 3000 cargo build --offline 2>&1 | tail -3)
 echo setup-ok
